@@ -40,3 +40,8 @@ pub fn c01_order_deque_fifo() {
     kani::cover!(true, "end");
     std::mem::forget(buf);
 }
+
+/// unreachability stub for `Deque::push_front` (queries in which the popped frame is never put back)
+pub(crate) fn stub_push_front_unreachable<T>(_this: &mut Deque, _buf: &mut Buffer<T>, _value: T) {
+    panic!("UNREACHABLE-STUB Deque::push_front")
+}
